@@ -37,7 +37,7 @@ m = {
                  "kind_free_text": "Rust harness driving the real library under seeded hostile workloads with in-process monitors; Python reference oracle (oracle/) judges recorded event logs offline; check.py merges verdicts"}],
     "checks": checks,
     "not_applicable": na,
-    "notes": "Runtime monitoring only. exit 2 = INCONCLUSIVE (build failure, oracle self-test failure, watchdog, observation minimum not met) and is never reported as a violation. Known findings: known_findings.json.",
+    "notes": "Runtime monitoring only. exit 2 = INCONCLUSIVE (build failure, oracle self-test failure, watchdog, observation minimum not met) and is never reported as a violation. Known findings: known_findings.json (five genuine defects of the pinned tree were repaired with 'fix:' commits in /repo - 93121b9, 71f2b86, 3afb03d, 4a9381a, 316fff7 - and are listed there as fixed; there are no open known findings). Every check alternates its shards between two builds (release with debug assertions and overflow checks / plain release) and between processes that did or did not use another ciphersuite first; both are recorded in each violation and used on replay. seeded/ holds 162 confirmed breaking changes with the checks that catch them (DESIGN.md section 13), mutation/ a 259-mutant sweep (section 15).",
 }
 json.dump(m, open(os.path.join(ROOT, "MANIFEST.json"), "w"), indent=1)
 try:
